@@ -338,6 +338,21 @@ def body(ctx):
                 break
     finally:
         shutil.rmtree(tmp, ignore_errors=True)
+    # design: close() racing with operations (AdbCloseRace conjoined with the Layer-A monitor), every schedule of 2 / 3 operation threads;
+    # the sanity mutation (flag cleared after the transport was closed) must violate the monitor clauses
+    for (ops, reps, sections) in ((['t1', 't2'], 2, 3), (['t1', 't2', 't3'], 2, 2)):
+        consts = {'Ops': '{' + ','.join('"%s"' % t for t in ops) + '}', 'Reps': str(reps), 'Sections': str(sections), 'FlagLast': 'FALSE'}
+        cfg = tlc.cfg_text(constants=consts, invariants=['MonitorOk', 'RefusedTouchesNothing', 'LockDiscipline'], deadlock=True)
+        r = tlc.cached_run('AdbCloseRace', cfg, depends=('AdbCloseRace', 'AdbMon'))
+        ctx.add_tlc(r, 'AdbCloseRace %d operation threads x %d calls x %d lock sections' % (len(ops), reps, sections))
+        if r.violations:
+            ctx.violation('C13.' + r.violations[0]['name'] + '(design)', dict(kind='design-counterexample', trace=r.violations[0]['trace'][-3:]))
+    cfg = tlc.cfg_text(constants={'Ops': '{"t1","t2"}', 'Reps': '2', 'Sections': '2', 'FlagLast': 'TRUE'}, invariants=['MonitorOk'], deadlock=True)
+    r = tlc.cached_run('AdbCloseRace', cfg, depends=('AdbCloseRace', 'AdbMon'))
+    ctx.add_tlc(r, 'AdbCloseRace sanity mutation FlagLast (must violate)')
+    if not r.violations:
+        raise tlc.TlcError('vacuity: AdbCloseRace with the flag cleared last does not violate the monitor')
+    ctx.extra['close_race_sanity_mutation_violates'] = r.violations[0]['name']
     # close() called by one thread / task while others are in the middle of operations or start new ones: from the moment close() is
     # called, whatever is started raises AdbConnectionError and writes nothing (monitor clauses C13.*), under random schedules
     import random
